@@ -52,3 +52,17 @@ Theorem C11_arm64_plus_128MiB_leak_refuted :
   r = RPanic POutOfBranchRange /\ o_owned s' = [(func + RANGE, 20)] /\ o_mem s' func = 0.
 Proof. exact arm64_plus_128MiB_leak. Qed.
 Print Assumptions C11_arm64_plus_128MiB_leak_refuted.
+
+(* the constants of the model's encoder are those of the current Rust source (gen/SrcConsts.v is regenerated from it on every run) *)
+From Inj Require Import SrcTie.
+From Inj.gen Require Import SrcConsts.
+Theorem C11_source_allocator : RANGE = LINUX_MAX_RANGE /\ forall oc, c_alloc (cfg_amd64 oc) = alloc_jit (ALLOC_STRICT =? 1).
+Proof. exact src_alloc. Qed.
+Print Assumptions C11_source_allocator.
+Theorem C11_source_arm64_range : forall func jit, entry_linux ARM64_BRANCH_HI func jit =
+  let offset := Z.quot (jit - func) 4 in
+  if (- ARM64_BRANCH_LO_NEG <=? offset) && (offset <=? ARM64_BRANCH_HI)
+  then EBytes (flat_map word_bytes [ARM64_B_OPCODE + (offset mod W32) mod (ARM64_B_MASK + 1); ARM64_NOP; ARM64_NOP])
+  else EPanic POutOfBranchRange.
+Proof. exact src_arm64_entry_linux. Qed.
+Print Assumptions C11_source_arm64_range.
